@@ -5,6 +5,7 @@ package main
 
 import (
 	"fmt"
+	"sync/atomic"
 	"math/big"
 	"sort"
 	"strconv"
@@ -26,6 +27,7 @@ type Sort struct {
 	W         int
 	Idx, Elem *Sort
 	Name      string
+	str       string
 }
 
 var (
@@ -36,6 +38,7 @@ var (
 
 func mkSort(s *Sort) *Sort {
 	k := s.String()
+	s.str = k
 	sortMu.Lock()
 	defer sortMu.Unlock()
 	if x, ok := sortTab[k]; ok {
@@ -50,6 +53,9 @@ func ArraySort(idx, el *Sort) *Sort { return mkSort(&Sort{Kind: KArray, Idx: idx
 func UnintSort(name string) *Sort   { return mkSort(&Sort{Kind: KUnint, Name: name}) }
 
 func (s *Sort) String() string {
+	if s.str != "" {
+		return s.str
+	}
 	switch s.Kind {
 	case KBool:
 		return "Bool"
@@ -73,11 +79,19 @@ type Term struct {
 	id   int
 }
 
+const nShards = 256
+
+type termShard struct {
+	mu  sync.Mutex
+	tab map[string]*Term
+}
+
 var (
-	termMu  sync.Mutex
-	termTab = map[string]*Term{}
-	termSeq int
+	termMu     sync.Mutex // protects the table registry only
+	termShards [nShards]termShard
+	termSeq    int64
 )
+
 
 func intern(t *Term) *Term {
 	var sb strings.Builder
@@ -98,14 +112,22 @@ func intern(t *Term) *Term {
 		sb.WriteString(strconv.Itoa(a.id))
 	}
 	k := sb.String()
-	termMu.Lock()
-	defer termMu.Unlock()
-	if x, ok := termTab[k]; ok {
+	h := uint32(2166136261)
+	for i := 0; i < len(k); i++ {
+		h = (h ^ uint32(k[i])) * 16777619
+	}
+	sh := &termShards[h%nShards]
+	sh.mu.Lock()
+	if sh.tab == nil {
+		sh.tab = map[string]*Term{}
+	}
+	if x, ok := sh.tab[k]; ok {
+		sh.mu.Unlock()
 		return x
 	}
-	termSeq++
-	t.id = termSeq
-	termTab[k] = t
+	t.id = int(atomic.AddInt64(&termSeq, 1))
+	sh.tab[k] = t
+	sh.mu.Unlock()
 	return t
 }
 
